@@ -232,15 +232,26 @@ def vib_signatures(spec, elsig):
     return list(itertools.product(*rng))      # C order, () when there is no mode
 
 
-def el_coupling(spec, ea, eb):
-    """Frenkel resonance coupling between two different electronic signatures."""
-    if ea == eb or sum(ea) != sum(eb):
+def el_coupling(spec, ea, eb, full=False):
+    """Frenkel resonance coupling between two different electronic signatures of two-level
+    molecules: J_kl between signatures that differ on exactly the two molecules k, l and
+
+    * belong to the same band (one excitation hops from l to k), or
+    * full=True only: belong to bands that differ by two (both molecules are excited or
+      de-excited at once: the non-secular terms J_kl (s_k^+ s_l^+ + s_k s_l) of the dipole-dipole
+      interaction, which the package includes on request: build(fem_full=True) /
+      coupling(.., full=True)).
+
+    Everything else is zero."""
+    if ea == eb:
         return 0.0
     diff = [i for i in range(len(ea)) if ea[i] != eb[i]]
     if len(diff) != 2:
         return 0.0
     k, l = diff
-    return float(spec["J"][k][l])
+    if sum(ea) == sum(eb) or (full and abs(sum(ea) - sum(eb)) == 2):
+        return float(spec["J"][k][l])
+    return 0.0
 
 
 def el_dipole(spec, ea, eb):
@@ -283,9 +294,11 @@ def block_tails(spec, ea, eb):
     return -numpy.expm1(logs)
 
 
-def aggregate_reference(spec, elsigs, sigma=1):
+def aggregate_reference(spec, elsigs, sigma=1, full=False):
     """Reference FC, H and dipole matrices for the electronic signatures `elsigs` (in
     the given order), vibrational signatures in C order inside each electronic state.
+    full=True: the Hamiltonian also carries the couplings between bands that differ by two
+    excitations (see el_coupling).
 
     spec = {"mols": [{"E": [e0, e1], "dip": [x,y,z], "modes": [{"w","d":[d0,d1],
             "n":[n0,n1]}]}], "J": matrix}
@@ -307,7 +320,7 @@ def aggregate_reference(spec, elsigs, sigma=1):
             sb = slice(offs[ib], offs[ib + 1])
             B = fc_block(spec, ea, eb, sigma)
             FC[sa, sb] = B
-            H[sa, sb] = el_coupling(spec, tuple(ea), tuple(eb)) * B
+            H[sa, sb] = el_coupling(spec, tuple(ea), tuple(eb), full) * B
             DD[sa, sb, :] = B[:, :, None] * el_dipole(spec, tuple(ea), tuple(eb))[None, None, :]
     # diagonal: electronic energy + vibrational ladder
     for a, (es, vs) in enumerate(labels):
